@@ -132,8 +132,70 @@ def fam_multi(dirname: str) -> str:
     return os.path.join(dirname, "root.json")
 
 
-FAMILY = {"params": fam_params, "bodies": fam_bodies, "links": fam_links}
-TEMPLATES = ["/items/{id}", "/search", "/items", "/users/{id}", "/users"]
+def fam_rich() -> dict:
+    """Schema features that reach the remaining value-generation sites of the coverage / examples phases (every one of them a draw):
+    format-only strings, length-only strings, bounded integers, arrays of enums / strings / objects, pattern + length, allOf, const,
+    patternProperties, exclusive bounds, uniqueItems, defaults and examples, boolean sub-schemas - and an operation that cannot be built."""
+    thing = {"type": "object", "required": ["id", "code"], "properties": {
+        "id": {"type": "string", "format": "uuid"},
+        "when": {"type": "string", "format": "date-time"},
+        "host": {"type": "string", "format": "hostname"},
+        "short": {"type": "string", "maxLength": 4},
+        "code": {"type": "string", "pattern": "^[A-Z]+$", "minLength": 2, "maxLength": 5},
+        "fixed": {"type": "string", "pattern": "^ab$", "minLength": 1, "maxLength": 3},
+        "level": {"type": "integer", "minimum": 2, "maximum": 9},
+        "ratio": {"type": "number", "exclusiveMinimum": True, "minimum": 0, "maximum": 12, "multipleOf": 3},
+        "colors": {"type": "array", "items": {"enum": ["r", "g", "b"]}, "minItems": 1},
+        "words": {"type": "array", "items": {"type": "string"}, "minItems": 2, "maxItems": 4, "uniqueItems": True},
+        "points": {"type": "array", "items": {"type": "object", "properties": {"x": {"type": "integer"}, "y": {"type": "integer"}}}},
+        "kind": {"const": "thing"},
+        "both": {"allOf": [{"type": "integer", "minimum": 1}, {"maximum": 5}]},
+        "one": {"allOf": [{"type": "string", "minLength": 1}]},
+        "either": {"anyOf": [{"type": "integer"}, {"type": "string", "maxLength": 2}]},
+        "size": {"type": "integer", "default": 3, "minimum": 0},
+        "label": {"type": "string", "example": "lbl", "minLength": 1},
+        "meta": {"type": "object", "patternProperties": {"^x-": {"type": "integer"}}, "additionalProperties": False},
+        "free": {"type": "object", "additionalProperties": True},
+    }}
+    return {"openapi": "3.0.2", "info": {"title": "rich", "version": "1"}, "paths": {
+        "/things": {"post": {"operationId": "createThing", "requestBody": {"required": True, "content": {"application/json": {"schema": thing}}},
+                             "responses": OK},
+                    "get": {"operationId": "listThings", "parameters": [
+                        {"name": "id", "in": "query", "schema": {"type": "string", "format": "uuid"}},
+                        {"name": "ip", "in": "query", "schema": {"type": "string", "format": "ipv4"}},
+                        {"name": "short", "in": "query", "required": True, "schema": {"type": "string", "maxLength": 3}},
+                        {"name": "level", "in": "query", "schema": {"type": "integer", "minimum": 2, "maximum": 9}},
+                        {"name": "colors", "in": "query", "schema": {"type": "array", "items": {"enum": ["r", "g", "b"]}}},
+                        {"name": "X-Code", "in": "header", "schema": {"type": "string", "pattern": "^[A-Z]+$", "minLength": 2, "maxLength": 5}},
+                        {"name": "size", "in": "query", "schema": {"type": "integer", "default": 3}},
+                    ], "responses": OK}},
+        "/broken": {"get": {"operationId": "broken", "parameters": [{"name": "q", "in": "query", "schema": {"$ref": "#/components/schemas/Missing"}}],
+                            "responses": OK}},
+    }}
+
+
+def fam_swagger() -> dict:
+    """Open API 2.0: the other dialect of the same generation code (formData, body parameter, collectionFormat, x-nullable)."""
+    return {"swagger": "2.0", "info": {"title": "swagger", "version": "1"}, "basePath": "/", "consumes": ["application/json"], "paths": {
+        "/items/{id}": {"get": {"operationId": "getItem2", "parameters": [
+            {"name": "id", "in": "path", "required": True, "type": "integer", "minimum": 1},
+            {"name": "n", "in": "query", "required": True, "type": "integer", "minimum": 1, "multipleOf": 2},
+            {"name": "tags", "in": "query", "type": "array", "items": {"type": "string", "enum": ["a", "b", "c"]}, "collectionFormat": "csv"},
+            {"name": "X-Tag", "in": "header", "type": "string", "pattern": "^[a-z]{1,5}$"},
+        ], "responses": OK}},
+        "/items": {"post": {"operationId": "createItem2", "parameters": [
+            {"name": "body", "in": "body", "required": True, "schema": {"type": "object", "required": ["name"], "properties": {
+                "name": {"type": "string", "minLength": 1}, "price": {"type": "number", "minimum": 0}, "note": {"type": "string", "x-nullable": True}}}},
+        ], "responses": OK}},
+        "/search": {"post": {"operationId": "search2", "consumes": ["application/x-www-form-urlencoded"], "parameters": [
+            {"name": "q", "in": "formData", "required": True, "type": "string", "minLength": 2, "maxLength": 5},
+            {"name": "lim", "in": "formData", "type": "integer", "maximum": 10},
+        ], "responses": OK}},
+    }}
+
+
+FAMILY = {"params": fam_params, "bodies": fam_bodies, "links": fam_links, "rich": fam_rich, "swagger": fam_swagger}
+TEMPLATES = ["/items/{id}", "/search", "/items", "/users/{id}", "/users", "/things", "/broken"]
 _TEMPLATE_RE = [(t, re.compile("^" + re.sub(r"\{[^}]+\}", "[^/]*", t) + "$")) for t in TEMPLATES]
 
 
@@ -142,7 +204,7 @@ def behaviour(rec):
     if rec.path == "/__verif__/marker":
         return json_response(200, {})
     key = zlib.crc32(rec.method.encode() + b" " + rec.target.encode("latin-1", "replace") + b" " + rec.body)
-    if key % 17 == 0:
+    if key % 97 == 0:          # rare: an explicit-example run (examples, coverage) stops at its first failure, and most cases should be observed
         return json_response(500, {"error": "scripted"})
     if rec.path == "/users" and rec.method == "POST":
         return json_response(201, {"id": key % 1000})
@@ -164,7 +226,6 @@ def behaviour(rec):
 METHODS = ["delete", "put", "patch", "trace", "options", "post"]   # user-supplied `unexpected_methods` (a set of >= 2 methods)
 QUICK = [  # (schema, phases, modes[, extras: fixed seed / unexpected_methods])
     ("params", ["coverage"], ["positive", "negative"], {"unexpected_methods": METHODS}),
-    ("params", ["coverage"], ["positive"]),
     ("params", ["fuzzing"], ["positive"], {"seed": 0}),
     ("params", ["examples", "coverage", "fuzzing"], ["negative"]),
     ("bodies", ["examples"], ["positive"]),
@@ -172,9 +233,14 @@ QUICK = [  # (schema, phases, modes[, extras: fixed seed / unexpected_methods])
     ("bodies", ["fuzzing"], ["positive", "negative"]),
     ("links", ["stateful"], ["positive"], {"seed": 0}),                               # seed 0 is a seed like any other
     ("links", ["fuzzing", "stateful"], ["positive", "negative"], {"seed": -1}),       # the suite re-run after a failure is seeded with -1 + 1 = 0
-    ("multi", ["examples", "coverage"], ["positive"]),
     ("multi", ["fuzzing", "stateful"], ["negative"]),
     ("multi", ["examples", "coverage", "fuzzing", "stateful"], ["positive", "negative"]),
+    ("rich", ["coverage"], ["positive", "negative"]),
+    ("rich", ["examples", "fuzzing"], ["positive", "negative"], {"unique_inputs": True}),
+    ("swagger", ["coverage", "fuzzing"], ["positive", "negative"], {"continue_on_failure": True}),
+    ("links", ["stateful"], ["positive", "negative"], {"unique_inputs": True, "max_failures": 2}),
+    ("params", ["coverage"], ["positive", "negative"], {"front": "cli"}),         # the CLI front door: `schemathesis run --seed N ...`
+    ("bodies", ["fuzzing"], ["negative"], {"front": "cli", "seed": 0}),
 ]
 
 
@@ -187,7 +253,7 @@ def configurations(ctx: Ctx) -> list[dict]:
         subsets = [["examples"], ["coverage"], ["fuzzing"], ["stateful"], ["examples", "coverage"], ["coverage", "fuzzing"], ["fuzzing", "stateful"],
                    ["examples", "fuzzing"], ["examples", "coverage", "fuzzing"], ["examples", "coverage", "fuzzing", "stateful"]]
         modes = [["positive"], ["negative"], ["positive", "negative"]]
-        allc = [(s, p, m) for s in ("params", "bodies", "links", "multi") for p in subsets for m in modes
+        allc = [(s, p, m) for s in ("params", "bodies", "links", "multi", "rich", "swagger") for p in subsets for m in modes
                 if "stateful" not in p or s in ("links", "multi")]
         rng.shuffle(allc)
         quick3 = [tuple(c[:3]) for c in QUICK]
@@ -208,10 +274,20 @@ def configurations(ctx: Ctx) -> list[dict]:
             if "coverage" in p and "negative" in m and i % 3 == 0:
                 k = 2 + i % 5
                 extras["unexpected_methods"] = METHODS[i % 2:][:k]
+            if i % 7 == 1:
+                extras["unique_inputs"] = True
+            if i % 7 == 3:
+                extras["continue_on_failure"] = True
+            if i % 11 == 5:
+                extras["max_failures"] = 1 + i % 2
+            if i % 9 == 2 and len(p) == 1:
+                extras["front"] = "cli"
         seed = extras.get("seed", seed)
         out.append({"id": i, "schema": s, "phases": p, "modes": m, "seed": seed, "seed2": abs(seed) + 1 + extra_rnd,
                     "h1": h1, "h2": h2, "max_examples": 5 if ctx.quick else 6, "steps": 4 if ctx.quick else 5,
-                    "diff": (not ctx.quick) or i % 2 == 0, "unexpected_methods": extras.get("unexpected_methods")})
+                    "diff": (not ctx.quick) or i % 2 == 0, "unexpected_methods": extras.get("unexpected_methods"),
+                    "unique_inputs": bool(extras.get("unique_inputs")), "continue_on_failure": bool(extras.get("continue_on_failure")),
+                    "max_failures": extras.get("max_failures"), "front": extras.get("front", "engine")})
     return out
 
 
@@ -223,6 +299,8 @@ def child_env(hashseed: int) -> dict:
     pp = [common.ROOT] + [p for p in os.environ.get("PYTHONPATH", "").split(os.pathsep) if p]
     env = {"PATH": os.environ.get("PATH", "/usr/bin:/bin"), "HOME": os.environ.get("HOME", "/tmp"), "PYTHONHASHSEED": str(hashseed),
            "PYTHONPATH": os.pathsep.join(pp), "SCHEMATHESIS_VERIF": "1", "PYTHONDONTWRITEBYTECODE": "1", "LANG": "C.UTF-8"}
+    if os.environ.get("COVERAGE_RCFILE"):          # tools/cov_audit.sh: measure the children too (they do all the work of this check)
+        env["COVERAGE_RCFILE"] = env["COVERAGE_PROCESS_START"] = os.environ["COVERAGE_RCFILE"]
     return env
 
 
@@ -233,6 +311,13 @@ def run_child(cfg: dict, workdir: str, name: str, hashseed: int, runs: list[dict
         schema = {"kind": "path", "path": os.path.join(workdir, "schema", "root.json")}   # one location for all runs of a configuration
     else:
         schema = {"kind": "dict", "raw": FAMILY[cfg["schema"]]()}
+        if cfg.get("front") == "cli":
+            path = os.path.join(workdir, "schema.json")          # the CLI loads a file
+            if not os.path.exists(path):
+                with open(path + ".%s.tmp" % name, "w") as fd:
+                    json.dump(schema["raw"], fd)
+                os.replace(path + ".%s.tmp" % name, path)
+            schema = {"kind": "path", "path": path}
     with LoopbackServer(behaviour) as srv:
         job = os.path.join(workdir, "job-%s.json" % name)
         with open(job, "w") as fd:
@@ -306,10 +391,14 @@ def run_config(args) -> dict:
     cfg, workdir = args
     wd = os.path.join(workdir, "cfg-%d" % cfg["id"])
     one = {"seed": cfg["seed"], "workers": 1, "phases": cfg["phases"], "modes": cfg["modes"], "max_examples": cfg["max_examples"], "steps": cfg["steps"],
-           "unexpected_methods": cfg.get("unexpected_methods")}
+           "unexpected_methods": cfg.get("unexpected_methods"), "unique_inputs": cfg.get("unique_inputs", False),
+           "continue_on_failure": cfg.get("continue_on_failure", False), "max_failures": cfg.get("max_failures"), "front": cfg.get("front", "engine")}
     plan = [("A", cfg["h1"], [dict(one, tag="A")]), ("B", cfg["h2"], [dict(one, tag="B")]),
             ("C", cfg["h1"], [dict(one, tag="A1"), dict(one, tag="A2")]),
-            ("E", cfg["h1"], [dict(one, tag="W3", workers=3)] + ([dict(one, tag="D", seed=cfg["seed2"])] if cfg.get("diff", True) else []))]
+            # a failure limit stops a multi-worker run at a scheduling-dependent moment: the bag clause speaks about complete runs
+            ("E", cfg["h1"], ([dict(one, tag="W3", workers=3)] if not cfg.get("max_failures") else [])
+             + ([dict(one, tag="D", seed=cfg["seed2"])] if cfg.get("diff", True) else []))]
+    plan = [p for p in plan if p[2]]
     plan = [p for p in plan if p[0] in cfg.get("only_children", ["A", "B", "C", "E"])]
     t0 = time.time()
     if cfg["schema"] == "multi":
@@ -510,6 +599,9 @@ def run(ctx: Ctx) -> Outcome:
                                 "configurations_with_seed_-1": sum(1 for c in cfgs if c["seed"] == -1),
                                 "stateful_suite_re-run_with_seed_0_after_a_failure": rollover},
         "configurations_with_user_supplied_unexpected_methods": sum(1 for c in cfgs if c.get("unexpected_methods")),
+        "configurations_by_front_door": {f: sum(1 for c in cfgs if c.get("front", "engine") == f) for f in ("engine", "cli")},
+        "configurations_with(unique_inputs,continue_on_failure,max_failures)": [sum(1 for c in cfgs if c.get(k)) for k in
+                                                                                 ("unique_inputs", "continue_on_failure", "max_failures")],
         "requests_outside_phases": outside, "skipped_outside_fragment": 0,
         "requests_per_phase": {ph: sum(len(run_["phases"].get(ph, [])) for r in results for run_ in r["runs"].values()) for ph in PH.values()},
         "config_wall_s": [round(r["wall"], 1) for r in results],
